@@ -38,6 +38,9 @@ MODES = {
     "plain": ("gcc", ["-O1", "-g", "-fno-builtin", "-fno-omit-frame-pointer"], []),
     "asan": ("clang", ["-O1", "-g", "-fsanitize=address,undefined", "-fno-sanitize-recover=undefined",
                        "-fno-omit-frame-pointer", "-DVH_SANITIZER"], ["-fsanitize=address,undefined"]),
+    # for properties that do not speak about undefined behaviour as such (C19): no report for forming str-1 on an empty string
+    "asanx": ("clang", ["-O1", "-g", "-fsanitize=address,undefined", "-fno-sanitize=pointer-overflow", "-fno-sanitize-recover=undefined",
+                        "-fno-omit-frame-pointer", "-DVH_SANITIZER"], ["-fsanitize=address,undefined"]),
     "tsan": ("clang", ["-O1", "-g", "-fsanitize=thread", "-fno-omit-frame-pointer", "-DVH_SANITIZER", "-DVH_TSAN"],
              ["-fsanitize=thread"]),
 }
